@@ -546,11 +546,22 @@ def rootQ (E : Engine) (i : Nat) : List Quad :=
 theorem graphTerm_of_ne {g : Id} (h : (g == dflt) = false) : graphTerm g = some (idTerm g) := by
   simp [graphTerm, h]
 
+/-- the literals of a map survive the `rdf_direction` option (see `LitOk`) -/
+def LitsOk (o : Opts) (m : NodeMap) : Prop := ∀ k vs, (k, vs) ∈ m → k ≠ kGraph → ∀ v ∈ vs, LitOk o v
+
+def SlotOk (o : Opts) (m : NodeMap) : Prop := ValsOk m ∧ LitsOk o m
+
+theorem SlotOk.entries {o : Opts} {m : NodeMap} (h : SlotOk o m) :
+    ∀ k vs, (k, vs) ∈ m → ∀ v ∈ vs, (k = kType → v.isNode = true) ∧
+      (∀ i id, v = .node i id → (prefix2 id).isSome = true) ∧ (k ≠ kGraph → LitOk o v) :=
+  fun k vs hk v hv => ⟨(h.1 k vs hk v hv).1, (h.1 k vs hk v hv).2, fun hkg => h.2 k vs hk hkg v hv⟩
+
 /-- the `filter_map` over the `@graph` values of the node `sj` -/
-theorem jsonifyGraph_rt (o : Opts) (E : Engine) (base : Str) (hd : o.dir = .none) (hln : E.listNode = [])
+theorem jsonifyGraph_rt (o : Opts) (E : Engine) (base : Str) (hd : o.dir = .compound → E.compound = [])
+    (hln : E.listNode = [])
     (sj : Id) (hsj : (sj == dflt) = false) :
     ∀ (ng : List RdfObject) (n : Nat),
-      (∀ v ∈ ng, ∃ i2 s2, v = .node i2 s2 ∧ E.gsId.getD i2 ([], []) = (sj, s2) ∧ ValsOk (E.node.getD i2 [])) →
+      (∀ v ∈ ng, ∃ i2 s2, v = .node i2 s2 ∧ E.gsId.getD i2 ([], []) = (sj, s2) ∧ SlotOk o (E.node.getD i2 [])) →
       ∃ ns, jsonifyGraph o E ng = .ok ns ∧ nodesRdf o base (some (idTerm sj)) ns n = (ng.flatMap (childQ E), n)
   | [], n, _ => ⟨[], rfl, rfl⟩
   | v :: rest, n, h => by
@@ -563,19 +574,21 @@ theorem jsonifyGraph_rt (o : Opts) (E : Engine) (base : Str) (hd : o.dir = .none
     cases m with
     | nil => exact ⟨ns, by simp, by simp [slotQuads, h2]⟩
     | cons e m' =>
-      obtain ⟨es, he1, he2⟩ := entries_roundtrip o E base (idTerm s2) hd hln (e :: m') n hm
+      obtain ⟨es, he1, he2⟩ := entries_roundtrip o E base (idTerm s2) hd hln (e :: m') n hm.entries
       refine ⟨⟨s2, es⟩ :: ns, ?_, ?_⟩
       · have hl0 : lookup s2 ([] : List (Id × Nat)) = none := rfl
-        simp [hln, hd, hl0, he1]
+        have hcc : ¬ (o.dir = .compound ∧ i2 ∈ E.compound) := fun ⟨c1, c2⟩ => by rw [hd c1] at c2; cases c2
+        simp [hln, hcc, hl0, he1]
       · simp only [nodesRdf, nodeRdf, he2, h2, slotQuads_eq_triples, graphTerm_of_ne hsj]
 
-def RootOk (E : Engine) (i : Nat) : Prop :=
-  ValsOk (E.node.getD i []) ∧ ((E.gsId.getD i ([], [])).2 == dflt) = false ∧
+def RootOk (o : Opts) (E : Engine) (i : Nat) : Prop :=
+  SlotOk o (E.node.getD i []) ∧ ((E.gsId.getD i ([], [])).2 == dflt) = false ∧
     ∀ v ∈ graphVals (E.node.getD i []), ∃ i2 s2, v = .node i2 s2 ∧
-      E.gsId.getD i2 ([], []) = ((E.gsId.getD i ([], [])).2, s2) ∧ ValsOk (E.node.getD i2 [])
+      E.gsId.getD i2 ([], []) = ((E.gsId.getD i ([], [])).2, s2) ∧ SlotOk o (E.node.getD i2 [])
 
-theorem jsonifyAll_rt2 (o : Opts) (E : Engine) (base : Str) (hd : o.dir = .none) (hln : E.listNode = []) :
-    ∀ (is : List Nat) (n : Nat), (∀ i ∈ is, RootOk E i) →
+theorem jsonifyAll_rt2 (o : Opts) (E : Engine) (base : Str) (hd : o.dir = .compound → E.compound = [])
+    (hln : E.listNode = []) :
+    ∀ (is : List Nat) (n : Nat), (∀ i ∈ is, RootOk o E i) →
       ∃ doc, jsonifyAll o E is = .ok doc ∧ docRdf o base doc n = (is.flatMap (rootQ E), n)
   | [], n, _ => ⟨[], rfl, rfl⟩
   | i :: rest, n, h => by
@@ -588,24 +601,25 @@ theorem jsonifyAll_rt2 (o : Opts) (E : Engine) (base : Str) (hd : o.dir = .none)
     obtain ⟨g, s⟩ := gs
     simp only at hs hch ⊢
     have hl0 : lookup s ([] : List (Id × Nat)) = none := rfl
+    have hcc : ¬ (o.dir = .compound ∧ i ∈ E.compound) := fun ⟨c1, c2⟩ => by rw [hd c1] at c2; cases c2
     by_cases hg : (g == dflt) = true
     · have hgd : g = dflt := eq_of_beq hg
       subst hgd
       cases m with
       | nil => exact ⟨doc, by simp, by simp [slotQuads, graphVals, lookup, h2]⟩
       | cons e m' =>
-        obtain ⟨es, he1, he2⟩ := entries_roundtrip o E base (idTerm s) hd hln (e :: m') n hm
+        obtain ⟨es, he1, he2⟩ := entries_roundtrip o E base (idTerm s) hd hln (e :: m') n hm.entries
         cases hlk : lookup kGraph (e :: m') with
         | none =>
           refine ⟨⟨⟨s, es⟩, none⟩ :: doc, ?_, ?_⟩
-          · simp [hln, hd, hl0, he1]
+          · simp [hln, hcc, hl0, he1]
           · simp [docRdf, nodeRdf, he2, h2, slotQuads_eq_triples, graphTerm_dflt, graphVals, hlk]
         | some ng =>
           have hgv : graphVals (e :: m') = ng := by simp [graphVals, hlk]
           rw [hgv] at hch
           obtain ⟨ns, hn1, hn2⟩ := jsonifyGraph_rt o E base hd hln s hs ng n hch
           refine ⟨⟨⟨s, es⟩, some ns⟩ :: doc, ?_, ?_⟩
-          · simp [hln, hd, hl0, he1, hn1]
+          · simp [hln, hcc, hl0, he1, hn1]
           · simp [docRdf, nodeRdf, he2, h2, hn2, slotQuads_eq_triples, graphTerm_dflt, hgv, List.append_assoc]
     · have hg' : (g == dflt) = false := by simpa using hg
       have hne : g ≠ dflt := by intro h0; subst h0; simp at hg'
@@ -617,17 +631,18 @@ theorem jsonifyAll_rt2 (o : Opts) (E : Engine) (base : Str) (hd : o.dir = .none)
 theorem getD_of_getElem? {α : Type} {l : List α} {i : Nat} {x d : α} (h : l[i]? = some x) : l.getD i d = x := by
   simp [List.getD_eq_getElem?_getD, h]
 
-theorem rootOk_of_ginv {E : Engine} (h : GInv E) {i : Nat} (hi : i < E.node.length) : RootOk E i := by
+theorem rootOk_of_ginv {o : Opts} {E : Engine} (h : GInv E) (hl : ∀ m ∈ E.node, LitsOk o m) {i : Nat}
+    (hi : i < E.node.length) : RootOk o E i := by
   have hi2 : i < E.gsId.length := h.aligned ▸ hi
   have hn : E.node[i]? = some E.node[i] := List.getElem?_eq_getElem hi
   have hg : E.gsId[i]? = some E.gsId[i] := List.getElem?_eq_getElem hi2
   rw [RootOk, getD_of_getElem? hn, getD_of_getElem? hg]
-  refine ⟨h.maps _ (List.getElem_mem hi), h.ids _ (List.getElem_mem hi2), fun v hv => ?_⟩
+  refine ⟨⟨h.maps _ (List.getElem_mem hi), hl _ (List.getElem_mem hi)⟩, h.ids _ (List.getElem_mem hi2), fun v hv => ?_⟩
   obtain ⟨i2, s2, rfl, h2⟩ := h.sound i _ _ hg hn v hv
   have hi2' : i2 < E.node.length := h.aligned.symm ▸ (List.getElem?_eq_some_iff.mp h2).1
   refine ⟨i2, s2, rfl, getD_of_getElem? h2, ?_⟩
   rw [getD_of_getElem? (List.getElem?_eq_getElem hi2')]
-  exact h.maps _ (List.getElem_mem hi2')
+  exact ⟨h.maps _ (List.getElem_mem hi2'), hl _ (List.getElem_mem hi2')⟩
 
 theorem mem_rootQ_iff {E : Engine} (h : GInv E) (q : Quad) :
     q ∈ (List.range E.node.length).flatMap (rootQ E) ↔ q ∈ (List.range E.node.length).flatMap (slotQ E) := by
@@ -663,5 +678,80 @@ theorem mem_rootQ_iff {E : Engine} (h : GInv E) (q : Quad) :
       rw [getD_of_getElem? hj1, getD_of_getElem? hj2]
       simp only [beq_self_eq_true, if_true]
       exact List.mem_append_right _ (List.mem_flatMap.mpr ⟨_, hj3, hq⟩)
+
+/-! ### `rdf_direction`: when the option cannot matter -/
+
+theorem index_compound (E : Engine) (g s : Id) : (E.index g s).1.compound = E.compound := by
+  unfold Engine.index; split <;> rfl
+
+theorem linkGraph_compound (E : Engine) (q : Quad) : (linkGraph E q).1.compound = E.compound := by
+  unfold linkGraph
+  cases q.g with
+  | none => exact index_compound _ _ _
+  | some g => simp only [Engine.push]; rw [index_compound, index_compound]
+
+theorem makeRdfObject_compound (E : Engine) (t : Term) (g : Id) : (E.makeRdfObject t g).1.compound = E.compound := by
+  cases t <;> simp only [Engine.makeRdfObject] <;> first | rfl | exact index_compound _ _ _
+
+theorem processQuad_compound (o : Opts) (E : Engine) (q : Quad) (hq : isIriC rdfDirection q.p = false) :
+    (processQuad o E q).compound = E.compound := by
+  unfold processQuad
+  split
+  · rfl
+  · simp only
+    have h1 : ∀ (i : Nat) (E' : Engine), (noteParent q i E').compound = E'.compound := by
+      intro i E'; unfold noteParent; split <;> rfl
+    have h2 : ∀ (i : Nat) (E' : Engine), (noteSeed o q i E').compound = E'.compound := by
+      intro i E'; unfold noteSeed
+      split
+      · split
+        · rfl
+        · split
+          · rename_i hc; simp [hq] at hc
+          · rfl
+      · rfl
+    rw [h1, h2]
+    simp only [Engine.push]
+    rw [makeRdfObject_compound, linkGraph_compound]
+
+theorem nodir_no_compound (o : Opts) (D : List Quad) (h : ∀ q ∈ D, isIriC rdfDirection q.p = false) :
+    (processQuads o D).compound = [] := by
+  have : ∀ (D : List Quad) (E : Engine), (∀ q ∈ D, isIriC rdfDirection q.p = false) →
+      (D.foldl (processQuad o) E).compound = E.compound := by
+    intro D
+    induction D with
+    | nil => intro E _; rfl
+    | cons q D ih =>
+      intro E hD
+      rw [List.foldl_cons, ih _ (fun x hx => hD x (List.mem_cons_of_mem _ hx)),
+        processQuad_compound o E q (hD q List.mem_cons_self)]
+  exact this D {} h
+
+theorem mkQuad_mem_slotQuads (gs : Id × Id) {k : Id} {vs : List RdfObject} {v : RdfObject} (hk : k ≠ kGraph)
+    (hv : v ∈ vs) : ∀ m : NodeMap, (k, vs) ∈ m → mkQuad gs k v ∈ slotQuads gs m
+  | [], h => by cases h
+  | (k0, vs0) :: rest, h => by
+    simp only [slotQuads, List.mem_append]
+    rcases List.mem_cons.mp h with h | h
+    · injection h with h1 h2
+      subst h1; subst h2
+      left
+      have : (k == kGraph) = false := by
+        cases hc : k == kGraph
+        · rfl
+        · exact absurd (eq_of_beq hc) hk
+      simp only [this, Bool.false_eq_true, if_false]
+      exact List.mem_map.mpr ⟨v, hv, rfl⟩
+    · exact Or.inr (mkQuad_mem_slotQuads gs hk hv rest h)
+
+/-- every literal the engine holds is the object of an input quad -/
+theorem stored_typed_from_input {E : Engine} (ha : Aligned E) {m : NodeMap} (hm : m ∈ E.node) {k : Id}
+    {vs : List RdfObject} (hk : (k, vs) ∈ m) (hkg : k ≠ kGraph) {lex dt : Str} (hv : RdfObject.typed lex dt ∈ vs) :
+    ∃ q, Denotes E q ∧ q.o = .lit lex dt := by
+  obtain ⟨i, hi, rfl⟩ := List.mem_iff_getElem.mp hm
+  have hi2 : i < E.gsId.length := ha ▸ hi
+  exact ⟨mkQuad E.gsId[i] k (.typed lex dt),
+    ⟨i, E.gsId[i], E.node[i], List.getElem?_eq_getElem hi2, List.getElem?_eq_getElem hi,
+      mkQuad_mem_slotQuads _ hkg hv _ hk⟩, rfl⟩
 
 end SophiaProofs.JsonLdLemmas
